@@ -116,18 +116,18 @@ def check_grid(api, ob, fail, drift, grid=None):
     cross = np.array(req["cross"], dtype=float)
     J = np.sqrt(np.array(req["j2"], dtype=float))
     sc = max(1.0, float(np.abs(cross).max()))
-    if np.abs(g.normals * J[:, None] - cross).max() > TOL * sc:
+    if not (np.abs(g.normals * J[:, None] - cross).max() <= TOL * sc):   # NaN counts as a deviation
         fail("normals", "normals*J != (p1-p0)x(p2-p0)")
-    if np.abs(np.linalg.norm(g.normals, axis=1) - 1).max() > TOL:
+    if not (np.abs(np.linalg.norm(g.normals, axis=1) - 1).max() <= TOL):   # NaN counts as a deviation
         fail("normals", "normals are not unit")
-    if np.abs(g.integration_elements - J).max() > TOL * sc:
+    if not (np.abs(g.integration_elements - J).max() <= TOL * sc):   # NaN counts as a deviation
         fail("integration_elements", "integration element != |cross|")
-    if np.abs(g.volumes - J / 2).max() > TOL * sc:
+    if not (np.abs(g.volumes - J / 2).max() <= TOL * sc):   # NaN counts as a deviation
         fail("volumes", "volume != |cross|/2")
-    if np.abs(3 * g.centroids - np.array(req["centroid3"], dtype=float)).max() > TOL * sc:
+    if not (np.abs(3 * g.centroids - np.array(req["centroid3"], dtype=float)).max() <= TOL * sc):   # NaN counts as a deviation
         fail("centroids", "centroid")
     d2 = np.array([a / b for a, b in req["diam2"]], dtype=float)
-    if np.abs(g.diameters**2 - d2).max() > TOL * max(1.0, d2.max()):
+    if not (np.abs(g.diameters**2 - d2).max() <= TOL * max(1.0, d2.max())):   # NaN counts as a deviation
         fail("diameters", "diameter^2 %s want %s" % (g.diameters**2, d2))
     P = np.array(ob["xyz"], dtype=float)
     for e in range(ne):
@@ -136,12 +136,12 @@ def check_grid(api, ob, fail, drift, grid=None):
         if np.abs(Jm[:, 0] - (p1 - p0)).max() > TOL * sc or np.abs(Jm[:, 1] - (p2 - p0)).max() > TOL * sc:
             fail("jacobians", "jacobian columns are not the edge vectors")
         Jit = g.jacobian_inverse_transposed[e]
-        if np.abs(Jm.T.dot(Jit) - np.eye(2)).max() > 1e-9:
+        if not (np.abs(Jm.T.dot(Jit) - np.eye(2)).max() <= 1e-9):   # NaN counts as a deviation
             fail("jacobian_inverse_transposed", "J^T Jinvt != I")
-        if np.abs(Jit.T.dot(g.normals[e])).max() > 1e-9:
+        if not (np.abs(Jit.T.dot(g.normals[e])).max() <= 1e-9):   # NaN counts as a deviation
             fail("jacobian_inverse_transposed", "Jinvt not tangential")
         ge = g.get_element(e).geometry
-        if np.abs(ge.corners - np.array([p0, p1, p2]).T).max() > TOL * sc:
+        if not (np.abs(ge.corners - np.array([p0, p1, p2]).T).max() <= TOL * sc):   # NaN counts as a deviation
             fail("corners", "element geometry corners")
     for prec in ("double", "single"):
         d = g.data(prec)
@@ -183,7 +183,7 @@ def check_derived(api, ob, g, fail):
     got = tri_multiset(r, 2)
     if got != want:
         fail("refine", "children of refine() are not the 4 nested, equally oriented sub-triangles with the parent's domain index")
-    if abs(r.volumes.sum() - g.volumes.sum()) > TOL * max(1, g.volumes.sum()):
+    if not (abs(r.volumes.sum() - g.volumes.sum()) <= TOL * max(1, g.volumes.sum())):   # NaN counts as a deviation
         fail("refine", "surface area changed")
     want = Counter()
     for e, kids in enumerate(req["bary"]):
@@ -257,5 +257,5 @@ def check_derived(api, ob, g, fail):
             fail("union", "%s: %d distinct (grid, domain) classes are mapped onto %d domain indices" % (label, len(classes), len(set(classes.values()))))
         elif not kw and sorted(set(classes.values())) != list(range(len(classes))):
             fail("union", "%s: normalised domain indices are %s, expected 0..%d" % (label, sorted(set(classes.values())), len(classes) - 1))
-        if abs(un.volumes.sum() - len(grids) * g.volumes.sum()) > 1e-9 * max(1, g.volumes.sum()):
+        if not (abs(un.volumes.sum() - len(grids) * g.volumes.sum()) <= 1e-9 * max(1, g.volumes.sum())):   # NaN counts as a deviation
             fail("union", "%s: surface area changed" % label)
